@@ -118,3 +118,41 @@ pub fn tie_case(text: &str, strict: bool) -> Option<(String, String)> {
     };
     Some((request, answer))
 }
+
+/// like `tie_case`, for documents that contain A2ML / IF_DATA (`special` types of the parser model)
+pub fn tie_case_special(text: &str, strict: bool) -> Option<(String, String)> {
+    let dump = catch(|| a2lfile::verif_hooks::tokenize_dump(text));
+    let toks = match &dump {
+        Ok(Ok(t)) => t.clone(),
+        _ => vec![],
+    };
+    let mut floats: Vec<String> = vec![];
+    let mut seen = std::collections::HashSet::new();
+    for (k, s, e, _) in &toks {
+        if *k == 5 {
+            let t = &text[*s..*e];
+            if seen.insert(t.to_string()) {
+                if let Some(p) = float_codec(t) {
+                    floats.push(format!("{}={}", hex(t.as_bytes()), hex(p.as_bytes())));
+                }
+                // f32 variant for A2ML `float` members: key prefixed with `f32:`
+                if let Ok(v) = t.parse::<f32>() {
+                    let v = v as f64;
+                    let p = if v == 0f64 { "0".to_string() } else if v < -1e+10 || (-0.0001 < v && v < 0.0001) || 1e+10 < v { format!("{v:e}") } else { format!("{v}") };
+                    floats.push(format!("{}={}", hex(format!("f32:{t}").as_bytes()), hex(p.as_bytes())));
+                }
+            }
+        }
+    }
+    let request = format!("a2l {} {} L {}", u8::from(strict), hex(text.as_bytes()), if floats.is_empty() { "-".to_string() } else { floats.join(",") });
+    let answer = match (&dump, load(text, strict)) {
+        (Err(_), _) | (_, Loaded::Panic(_)) => "PANIC".to_string(),
+        (Ok(Err((kind, line))), _) => format!("err Tokenizer:{kind}@{line}"),
+        (_, Loaded::Err(e)) => format!("err {e}"),
+        (_, Loaded::Ok(f, log)) => match catch(|| f.write_to_string()) {
+            Ok(w) => format!("ok;log={};text={}", log_text(&log), hex(w.as_bytes())),
+            Err(_) => "PANIC-write".to_string(),
+        },
+    };
+    Some((request, answer))
+}
